@@ -411,6 +411,18 @@ def judge_b2c(raw, version=V311, lenient_flags=True):
     try:
         return True, decode(raw, version, strict=True, direction="b2c", semantic=False)
     except Malformed as e:
+        if e.why == "non-minimal remaining length":
+            # MQTT 3.1 / 3.1.1 describe the encoder, which is minimal, but do not tell a receiver to
+            # refuse a longer encoding of the same number (MQTT 5 does): a client may read such a
+            # packet as the packet it spells, or refuse it.  Marked ambiguous: judged neither way.
+            try:
+                r = dec_varint(raw, 1)
+                canon = bytes(raw[:1]) + enc_varint(r[0]) + bytes(raw[r[1]:])
+                ok2, _ = judge_b2c(canon, version, lenient_flags)
+                e.ambiguous = bool(ok2)
+            except Exception:
+                e.ambiguous = False
+            return False, e
         if lenient_flags:
             try:
                 t = TYPES.get(raw[0] >> 4)
